@@ -202,6 +202,23 @@ claim("C19", "proof",
       "checks/c19.py with Python's realpath/isfile; directory inputs (read_dir order) are not generated.",
       "Lean 4 proof (invariant + termination measure for the include work list) + correspondence on materialised trees + reachability oracle", "5 (C19)")
 
+claim("C18", "proof",
+      "Lean 4 theorems (Props/C18.lean) on the model of syntax_sugar_remover.rs + the ContainsExpression trait, for every AST / template "
+      "table / loop context: the traversal behind all position checks is complete; a template that survives remove_syntactic_sugar contains "
+      "no tuple, no anonymous component and no multi-substitution anywhere (proved through every statement kind and expression position — "
+      "the proof attempt is what located the unchecked assert / log-expression / left-hand-index / function-assignment positions, now fixed); "
+      "a function is kept iff it is free of them; a tuple assignment = the element-wise assignments of the flattened sides in order skipping "
+      "`_`; an anonymous component = declaration + initialisation + one input assignment per input in declaration order (positional, or by "
+      "name with the written operator) and its value = its outputs in declaration order. Tie per run: for generated definitions with sugar "
+      "in 28 positions x 5 sugar kinds, valid forms (nesting, named inputs in any order, loops, branches, parallel) and arity/name errors, "
+      "model(pre-desugar AST) = real post-desugar AST node for node incl. ranges, or model error = real report (message, range) (L2); no "
+      "sugar node survives in any definition, dropped definitions carry a located error, no panic in the whole pipeline, findings of a "
+      "sugared template = findings of its hand-written expansion (L1).",
+      "Lean kernel + standard axioms; the grammar (which builds the AST) and IR lifting are outside the model and covered by correspondence "
+      "and the no-panic oracle; PARTIAL: the equality of findings with the hand-written expansion is decided per generated pair, not proved; "
+      "one open known finding (generated loop counter adds CS0004/CS0008).",
+      "Lean 4 proof (completeness of both removal passes, tuple semantics, component expansion shape) + node-for-node correspondence + expansion oracle", "5 (C18)")
+
 ALL = ["C%02d" % i for i in range(1, 21)]
 def main():
     checks = []
